@@ -28,6 +28,8 @@ val compOpp : comparison -> comparison
 
 val add : nat -> nat -> nat
 
+val mul : nat -> nat -> nat
+
 val sub : nat -> nat -> nat
 
 type positive =
@@ -172,7 +174,11 @@ val map : ('a1 -> 'a2) -> 'a1 list -> 'a2 list
 
 val fold_right : ('a2 -> 'a1 -> 'a1) -> 'a1 -> 'a2 list -> 'a1
 
+val existsb : ('a1 -> bool) -> 'a1 list -> bool
+
 val forallb : ('a1 -> bool) -> 'a1 list -> bool
+
+val firstn : nat -> 'a1 list -> 'a1 list
 
 val repeat : 'a1 -> nat -> 'a1 list
 
@@ -271,6 +277,8 @@ type err =
 type 'a result =
 | OK of 'a
 | Error of err
+
+val bind : 'a1 result -> ('a1 -> 'a2 result) -> 'a2 result
 
 val err_name : err -> char list
 
@@ -638,5 +646,111 @@ val s_rows : value list list -> sexp
 val s_job : job_result -> sexp
 
 val run_run : sexp -> sexp
+
+type kind =
+| KVal of char list option * nat
+| KEnumVal
+| KColl of char list * nat * char list * nat
+| KSeq of kind
+| KTuple of kind list
+| KDict of kind list * bool
+| KTree
+| KNs of char list list
+| KEnum of char list list
+
+type expr =
+| EConst of char list
+| EName of char list
+| EAttr of expr * char list
+| ECall of expr * expr list * nat
+| ELambda of char list list * expr
+| EBinOp of char list * expr * expr
+| EUnOp of char list * expr
+| ECompare of char list list * expr * expr list
+| EBoolOp of char list * expr list
+| EIfExp of expr * expr * expr
+| ESubscript of expr * expr
+| ETuple of expr list
+| EList of expr list
+| EDict of bool * bool * expr list
+| ELiteral of bool * nat
+| EOther of char list * expr list
+| ECppCode of bool * char list * nat * char list * nat * nat
+   * char list option
+| EFunAst of char list * char list
+| EKind of kind
+
+type minfo = { mi_coll : bool; mi_ty : char list; mi_pd : nat;
+               mi_ety : char list; mi_epd : nat }
+
+type registry = { r_methods : ((char list * char list) * minfo) list;
+                  r_ns : char list list list;
+                  r_enums : (char list list * char list list) list }
+
+val assoc2 :
+  (char list * char list) -> ((char list * char list) * 'a1) list -> 'a1
+  option
+
+val path_eqb : char list list -> char list list -> bool
+
+val mem_path : char list list -> char list list list -> bool
+
+val assoc_path : char list list -> (char list list * 'a1) list -> 'a1 option
+
+type frames0 = (char list * expr) list list
+
+val frame_lookup : char list -> (char list * expr) list -> expr option
+
+val lookup_name : char list -> frames0 -> expr option
+
+val zip_args : char list list -> expr list -> (char list * expr) list
+
+val as_cpp : kind -> unit result
+
+val type_name : kind -> char list result
+
+val is_num_type : char list -> bool
+
+val prio : char list -> nat
+
+val most_accurate : char list -> char list -> char list result
+
+val determine_type_mf : registry -> kind -> char list -> kind result
+
+val is_cpp_value : kind -> bool
+
+val seq_tree_ok : kind -> bool
+
+val ttree_type_ok : kind -> unit result
+
+val all_ok : ('a1 -> unit result) -> 'a1 list -> unit result
+
+val known_binop : char list -> bool
+
+val known_unop : char list -> bool
+
+val known_cmp : char list -> bool
+
+val event_kind : kind
+
+val result_ttree : kind -> nat -> kind result
+
+val visit : registry -> nat -> frames0 -> expr -> kind result
+
+val translate : registry -> nat -> expr -> kind result
+
+val d_expr_fuel : nat -> sexp -> expr option
+
+val sdepth : sexp -> nat
+
+val d_expr : sexp -> expr option
+
+val d_minfo : sexp -> ((char list * char list) * minfo) option
+
+val d_registry : sexp -> registry option
+
+val s_kind : kind -> sexp
+
+val run_translate : sexp -> sexp
 
 val dispatch : char list -> sexp -> sexp
